@@ -419,7 +419,8 @@ class ClassUtils:
         """
         for index in range(1, len(rename)):
             reserved = set(map(get_slug, attrs))
-            name = rename[index].name
+            # A name without any letters or digits is rendered as the default name
+            name = rename[index].name if rename[index].slug else DEFAULT_ATTR_NAME
             rename[index].name = cls.unique_name(name, reserved)
 
     @classmethod
